@@ -27,3 +27,35 @@ pub fn build_det(family: &str, rng: &mut Rng, tier: u32) -> Option<Built> {
 pub fn det_families() -> Vec<&'static str> {
     vec!["mutex"]
 }
+
+pub mod live_park;
+
+/// a live-mode scenario (real runtime, real time)
+pub struct LiveBuilt {
+    pub header: String,
+    /// runs the scenario to completion on the calling thread (actor `main`); returns oracle failures
+    pub run: Box<dyn FnOnce() -> Vec<String> + Send>,
+    pub filter: Vec<&'static str>,
+    /// no hooked event for this long while the scenario is unfinished = hang
+    pub hang_ms: u64,
+}
+
+pub fn build_live(family: &str, rng: &mut Rng, tier: u32) -> Option<LiveBuilt> {
+    match family {
+        "park" => Some(live_park::build(rng, tier)),
+        _ => None,
+    }
+}
+
+/// spawn a plain thread that is an actor of the scenario
+pub fn spawn_actor_thread<F: FnOnce() + Send + 'static>(name: &str, f: F) -> std::thread::JoinHandle<()> {
+    let n = name.to_string();
+    std::thread::Builder::new()
+        .name(n.clone())
+        .spawn(move || {
+            may::verif::push_actor(n);
+            f();
+            may::verif::pop_actor();
+        })
+        .unwrap()
+}
